@@ -3,6 +3,7 @@ package fga
 import (
 	"context"
 	"fmt"
+	"hash/fnv"
 	"sort"
 
 	"github.com/openfga/openfga/pkg/typesystem"
@@ -18,6 +19,39 @@ var objTypes = []string{"group", "team", "folder", "doc"}
 var relNames = []string{"member", "owner", "editor", "viewer", "blocked", "admin"}
 var ids = []string{"a", "b", "c"}
 var userIDs = []string{"x", "y", "z"}
+
+// ---- ids on both sides of '#', '*' and ':' ----
+//
+// A small share (1 in 20) of the entities `type:id` of a case get an id that starts with a character
+// sorting before '#' ("!"), between '#' and '*' ("$") or between '*' and ':' ("+"); the plain ids sort
+// after all three.  pkg/tuple's validators accept them (IsValidObject / IsValidUserID / IsValidUserset
+// reject only '#', ':', ' ' and control characters inside an id), so do the protobuf patterns.  Code
+// that relies on where `type:*` (or a '#' / ':' boundary) lands in a sorted list of users or objects
+// thus meets both orders.  The choice is a pure function of (model, type, id): it consumes no
+// randomness — the streams of all generators are what they were before — and an entity is renamed
+// consistently wherever it occurs (tuple object, tuple user, userset object, request).
+var oddPrefixes = []string{"!", "$", "+"}
+
+// OddID returns the id under which entity typ:id appears in cases over model m.
+func OddID(m *Model, typ, id string) string {
+	if id == "" || id == "*" {
+		return id
+	}
+	h := fnv.New64a()
+	h.Write([]byte(m.Encode()))
+	h.Write([]byte{0})
+	h.Write([]byte(typ))
+	h.Write([]byte{0})
+	h.Write([]byte(id))
+	v := h.Sum64() >> 13
+	if v%20 != 0 {
+		return id
+	}
+	return oddPrefixes[(v/20)%uint64(len(oddPrefixes))] + id
+}
+
+// Ent spells entity typ:id with OddID applied.
+func Ent(m *Model, typ, id string) string { return typ + ":" + OddID(m, typ, id) }
 
 type GenOpts struct {
 	MaxTypes   int
@@ -335,7 +369,7 @@ func GenTuple(r *hx.Rand, m *Model) (Tuple, bool) {
 		return Tuple{}, false
 	}
 	c := hx.Pick(r, cands)
-	tu := Tuple{Obj: c.t + ":" + hx.Pick(r, ids), Rel: c.rd.Name}
+	tu := Tuple{Obj: Ent(m, c.t, hx.Pick(r, ids)), Rel: c.rd.Name}
 	x := hx.Pick(r, c.rd.Restrs)
 	if r.Chance(1, 8) {
 		// left over from a sibling model: arbitrary restriction shape
@@ -357,11 +391,11 @@ func GenTuple(r *hx.Rand, m *Model) (Tuple, bool) {
 	case x.Wild:
 		tu.User = x.Typ + ":*"
 	case x.Rel != "":
-		tu.User = x.Typ + ":" + hx.Pick(r, ids) + "#" + x.Rel
+		tu.User = Ent(m, x.Typ, hx.Pick(r, ids)) + "#" + x.Rel
 	case x.Typ == "user":
-		tu.User = "user:" + hx.Pick(r, userIDs)
+		tu.User = Ent(m, "user", hx.Pick(r, userIDs))
 	default:
-		tu.User = x.Typ + ":" + hx.Pick(r, ids)
+		tu.User = Ent(m, x.Typ, hx.Pick(r, ids))
 	}
 	tu.Cond = x.Cond
 	// condition mismatches (a tuple written under a model version whose restriction carried another / no
@@ -424,7 +458,7 @@ func GenReq(r *hx.Rand, m *Model, tuples []Tuple) Req {
 		rq.Obj = t.Obj
 		ot = TypeOf(t.Obj)
 	} else {
-		rq.Obj = ot + ":" + hx.Pick(r, ids)
+		rq.Obj = Ent(m, ot, hx.Pick(r, ids))
 	}
 	for _, t := range m.Types {
 		if t.Name == ot {
@@ -433,14 +467,14 @@ func GenReq(r *hx.Rand, m *Model, tuples []Tuple) Req {
 	}
 	switch k := r.Intn(10); {
 	case k < 7:
-		rq.User = "user:" + hx.Pick(r, userIDs)
+		rq.User = Ent(m, "user", hx.Pick(r, userIDs))
 	case k < 8:
 		rq.User = "user:*"
 	default:
 		t2 := hx.Pick(r, ots)
 		for _, t := range m.Types {
 			if t.Name == t2 {
-				rq.User = t2 + ":" + hx.Pick(r, ids) + "#" + hx.Pick(r, t.Rels).Name
+				rq.User = Ent(m, t2, hx.Pick(r, ids)) + "#" + hx.Pick(r, t.Rels).Name
 			}
 		}
 	}
